@@ -283,11 +283,42 @@ def loss_rescale(repo):
     return rows
 
 
+DEFAULTS = [
+    ("scico/_autograd.py", "grad"), ("scico/_autograd.py", "value_and_grad"), ("scico/_autograd.py", "jacrev"), ("scico/_autograd.py", "cvjp"),
+    ("scico/operator/_operator.py", "Operator.vjp"), ("scico/linop/_util.py", "jacobian"),
+    ("scico/function.py", "Function.vjp"), ("scico/function.py", "Function.jacobian"),
+    ("scico/loss.py", "Loss.__init__"), ("scico/loss.py", "SquaredL2Loss.__init__"), ("scico/loss.py", "PoissonLoss.__init__"),
+    ("scico/loss.py", "SquaredL2AbsLoss.__init__"), ("scico/loss.py", "SquaredL2SquaredAbsLoss.__init__"),
+    ("scico/functional/_norm.py", "HuberNorm.__init__"), ("scico/functional/_norm.py", "L21Norm.__init__"),
+    ("scico/functional/_norm.py", "L1MinusL2Norm.__init__"), ("scico/functional/_tvnorm.py", "TVNorm.__init__"),
+    ("scico/functional/_proxavg.py", "ProximalAverage.__init__"),
+]
+
+
+def defaults(repo):
+    """(function, parameter, default value as source text) for every parameter with a default of the listed functions"""
+    rows = []
+    for rel, qual in DEFAULTS:
+        tree = ast.parse((repo / rel).read_text())
+        fns = {name: fn for name, fn, _ in _walk_functions(tree)}
+        if qual not in fns:
+            rows.append((qual, "<missing>", ""))
+            continue
+        a = fns[qual].args
+        pos = a.posonlyargs + a.args
+        for arg, d in zip(pos[len(pos) - len(a.defaults):], a.defaults):
+            rows.append((qual, arg.arg, ast.unparse(d)))
+        for arg, d in zip(a.kwonlyargs, a.kw_defaults):
+            if d is not None:
+                rows.append((qual, arg.arg, ast.unparse(d)))
+    return rows
+
+
 def read_tables(repo=None):
     repo = Path(repo) if repo else _repo()
     br, ret = linear_adjoint_branches(repo)
     return {"conj": conj_sites(repo), "forwards": forwards(repo), "linadj": br, "linadj_ret": ret,
-            "family": functional_family(repo), "rescale": loss_rescale(repo)}
+            "family": functional_family(repo), "rescale": loss_rescale(repo), "defaults": defaults(repo)}
 
 
 if __name__ == "__main__":
@@ -331,6 +362,7 @@ def tables_lean(t, ns_open="Scico.Autograd.Tables"):
     L.append("def linadjBranches : List (String × String) := " + _llist([f"({_ls(a)}, {_ls(b)})" for a, b in t["linadj"]]))
     L.append(f"def linadjReturn : String := {_ls(t['linadj_ret'])}")
     L.append("def rescale : List (String × List String) := " + _llist([f"({_ls(m)}, {_lstrs(st)})" for m, st in t["rescale"]]))
+    L.append("def defaults : List (String × String × String) := " + _llist([f"({_ls(a)}, {_ls(b)}, {_ls(c)})" for a, b, c in t["defaults"]]))
     L.append("def classes : List ClassRow := " + _llist([
         f"⟨{_ls(c['name'])}, {_lstrs(c['bases'])}, {'true' if c['has_init'] else 'false'}, {'true' if c['calls_super'] else 'false'}, "
         f"{_ls(c['has_eval'])}, {_lstrs(c['defines'])}, {_lstrs(c['assigns_grad_in'])}⟩" for c in t["family"]]))
@@ -366,6 +398,9 @@ theorem linadj_ok : linadjBranches = Scico.Autograd.Tables.linadjBranches ∧ li
 
 /-- `Loss.__mul__/__truediv__`: copy, re-bind `_grad` to the copy, set the scale; `__rmul__` delegates; `set_scale` assigns -/
 theorem rescale_ok : rescale = Scico.Autograd.Tables.rescale := by decide
+
+/-- default argument values of the differentiation API and of the modelled constructors -/
+theorem defaults_ok : defaults = Scico.Autograd.Tables.defaults := by decide
 
 /-- the `Functional` family is the one the model's inventory lists (names, bases, scaling / grad methods, `_grad` assignments) -/
 theorem family_ok : classes.map ClassRow.key = Scico.Autograd.Tables.family.map FamilyRow.key := by decide
